@@ -17,15 +17,16 @@ PROPERTY = "C03"
 RULE = ("Generated test programs as in C01 with emphasis on ordered pairs/triples of (exception kind, stage), subclasses "
         "of SkipTest / AssertionError / _ExpectedFailure / _UnexpectedSuccess, expectThat mismatches and force_failure, "
         "user handlers for the skip class in programs that raise several things, "
-        "plus single-exception programs with user handlers inserted into exception_handlers at generated positions "
-        "(before run() or during setUp); run against the extended recorder and a real testtools.TestResult. Oracle "
+        "plus single-exception programs with user handlers inserted into exception_handlers with the documented idioms "
+        "(insert(0, ..) at the front, insert(-1, ..) before the catch-all, appended behind it; before run() or during "
+        "setUp); run against the extended recorder and a real testtools.TestResult. Oracle "
         "from the statement: success <=> the reference interpreter says nothing raised; exactly one exception => the "
         "outcome of the first isinstance-matching handler-table entry; any failure/error raised => a failing outcome "
         "and wasSuccessful() False. Exhaustive grid of 9 behaviours x 5 stages in thorough. "
         "A mismatched expectThat / a set force_failure (instance or class attribute; in any stage, cleanups included) "
         "counts as a failure raised after the cleanups: never a success, never downgraded by a skip / expected failure, "
-        "any failing outcome; a skip raised under @unittest.expectedFailure may be reported as a skip or "
-        "as an expected failure. Exhaustive grids in every tier: delayed failure x site x one other harmless "
+        "any failing outcome; a skip / an error raised under @unittest.expectedFailure may be reported as a skip / an "
+        "error or as an expected failure. Exhaustive grids in every tier: delayed failure x site x one other harmless "
         "exception; one exception x one user handler (plain class, tuple of classes, ABC-registered class) x raising "
         "stage x insertion time (before run(), setUp, test method, tearDown, last cleanup) x runner chosen by default / "
         "runTest= / @run_test_with / a two-argument factory; two tests of one class with different handler tables; "
@@ -37,13 +38,24 @@ ASSUMPTIONS = [
     "which of several failures/errors is reported is not asserted",
     "user-mapped exception classes are only generated in single-exception programs; programs raising several things "
     "get at most a user handler for the skip class (which cannot claim a failure or an error)",
-    "the handler table that counts is the one in place when the run's outcome is reported: a handler the test inserts "
-    "in tearDown or in a cleanup, after the exception was caught, takes part (exception_handlers is documented as "
-    "'able to be modified at any time')",
+    "a handler inserted before the exception is caught (before run(), in setUp, in the test method, in tearDown before a "
+    "tearDown / cleanup exception) takes part (exception_handlers is documented as 'able to be modified at any time'); a "
+    "handler the test inserts after the exception was caught may take part (testtools: the table in place when the outcome "
+    "is reported counts) or not (a runner that resolves the handler as it catches)",
+    "of the default handler table only what is documented is used: entries are consulted in list order and the catch-all "
+    "for Exception is the last one; which specific entries precede it, and in which order, is not assumed - user handlers "
+    "are inserted at the front, with insert(-1, ..) or appended, never between default entries; a user handler behind "
+    "the catch-all must not claim an Exception, one inserted with insert(-1, ..) must not claim what a specific default "
+    "entry (skip / failure / expected failure / unexpected success) claims",
     "a handler's class may be anything isinstance() accepts: a class, a tuple of classes, an ABC with registered "
     "subclasses",
-    "an exception raised by a test decorated with @unittest.expectedFailure that is not of the skip class (an error "
-    "included) counts as the expected failure, as in unittest",
+    "a failure raised by a test decorated with @unittest.expectedFailure is the expected failure; a skip or an error "
+    "raised there may be the expected failure (testtools, unittest for the error) or keep the outcome its type maps to "
+    "(the statement read literally)",
+    "a skip-decorated test is reported as a skip, or as what a user handler claiming the skip class says (a tree may "
+    "report the decorator's skip through the handler table)",
+    "force_failure set on the instance before run() counts for that run (documented: 'Force testtools.RunTest to fail the "
+    "test after the test has completed'); a run() that forgets it is reported",
     "whether a plain unittest.SkipTest raised in a test whose skipException is an unrelated class is an error or a skip "
     "is read off the tree under test (a run that raises nothing else); the rest of the statement is then applied to "
     "that reading",
@@ -79,6 +91,20 @@ class OwnFail(Exception):
 EXT_CLASSES = {"CustomA": P.CustomA, "CustomFail": P.CustomFail, "AssertionError": AssertionError, "Exception": Exception,
                "SkipTest": unittest.SkipTest, "TupleAK": (P.CustomA, KeyError), "VirtualA": VirtualA}
 FORCE_VALUES = {"True": True, "1": 1, "yes": "yes"}
+# Where a user handler goes.  Only "precedence in list order" and "the catch-all for Exception is the last entry" are
+# documented, not which default entries precede the catch-all nor their order, so handlers are inserted with the three
+# idioms that mean the same under every layout of the default table: insert(0, ..) (RunTest docstring: "insert it at the
+# front"), insert(-1, ..) (doc/for-framework-folk: before the catch-all, behind every specific default entry) and
+# insert(END, ..) (list.insert clamps: appended behind the catch-all).
+END = 1000
+DOC_POS = {0: 0, 1: 0, 2: -1, 3: -1, 4: -1, 5: END}
+
+
+def documented_positions(prog):
+    """Map the literal positions 0..5 drawn by vp.programs onto the layout-independent idioms."""
+    if not prog.get("handlers"):
+        return prog
+    return dict(prog, handlers=[dict(h, pos=DOC_POS.get(h["pos"], h["pos"])) for h in prog["handlers"]])
 
 
 class Model3(P.Model):
@@ -168,7 +194,7 @@ def build_ext(prog, live):
 def custom_programs(draw):
     """Single-exception programs with user handlers; the runner is chosen in every documented way, and now and then the
     handlers are inserted late / for a class that is a tuple or an ABC."""
-    prog = dict(draw(P.programs(custom=True, cleanup_depth=1, p_raise=0)))
+    prog = documented_positions(dict(draw(P.programs(custom=True, cleanup_depth=1, p_raise=0))))
     if not prog["handlers"] or prog["decor"] != "none":
         return prog
     prog["handlers"] = [dict(h) for h in prog["handlers"]]
@@ -191,7 +217,7 @@ def custom_programs(draw):
 
 
 PROG = st.one_of(P.programs(multi=True, expect=True, force=True, cleanup_depth=2, p_raise=6, extras=True, skip_handlers=True,
-                            texts=True, rets=True, upcall=True, decor=True),
+                            texts=True, rets=True, upcall=True, decor=True).map(documented_positions),
                  custom_programs())
 CASE = st.fixed_dictionaries({"prog": PROG, "flavour": st.sampled_from(["ext", "real", "ext"])})
 FAILING = {"addFailure", "addError", "addUnexpectedSuccess"}
@@ -204,8 +230,11 @@ def judge(model, prog, out, flavour, obs):
     admissible, propagates = model.admissible()
     kinds = [r["kind"] for r in model.raised]
     if model.skipped_by_decorator:
-        # the statement is silent on a skip-decorated test whose force_failure is set: anything but a success
-        if out != "addSkip" and not (prog.get("force_outside") and out in FAILING):
+        # the statement is silent on a skip-decorated test whose force_failure is set: anything but a success.  A tree
+        # that reports the decorator's skip through the handler table (raises skipException(why), as the older skip
+        # decorators did) lets a user handler that claims the skip class decide: precedence in list order
+        by_user = {h["to"] for h in prog["handlers"] if h["cls"] in ("SkipTest", "Exception")}
+        if out != "addSkip" and out not in by_user and not (prog.get("force_outside") and out in FAILING):
             vs.append(V("single-mapping", "decorator-skip->" + out, "a skip-decorated test was reported as %s" % out))
         return vs
     # the delayed failure of expectThat / force_failure ("forced", raised after the cleanups of a test whose setUp
@@ -270,11 +299,19 @@ def readings(prog):
         prog["custom_skip"] = False         # (for the model: the raised class is a skip class of this test)
     out = [model_of(prog)]
     if prog["decor"] == "expectedFailure" and prog["body"] and prog["body"][-1]["a"] == "raise" \
-            and P.klass(prog["body"][-1]["kind"]) == "skip":
+            and P.klass(prog["body"][-1]["kind"]) in ("skip", "error"):
         # a skip raised inside a test decorated with @unittest.expectedFailure: testtools turns it into an expected
         # failure (DESIGN 11.2); read literally the statement asks for the skip (one exception, of the skip class),
-        # which is also what unittest does
+        # which is also what unittest does.  The same for an error: testtools and unittest count any exception of the
+        # decorated method as the expected failure, read literally the statement asks for the outcome the type maps to
+        # (testtools' own expectFailure() catches failureException only)
         out.append(model_of(dict(prog, decor="none")))
+    when = prog.get("handlers_when", "init")
+    if prog["handlers"] and (when == "cleanup" or (when == "tearDown" and any(r["stage"] in ("setUp", "body") for r in out[0].raised))):
+        # the user inserted the handlers after the exception was caught (first thing in tearDown / in the cleanup that
+        # runs last): testtools looks the handler up when the run is reported, so they take part; the statement does not
+        # say when the table is consulted, a runner that resolves the handler as it catches is admitted too
+        out.append(model_of(dict(prog, handlers=[])))
     return out
 
 
@@ -324,7 +361,7 @@ def _enum_pairs():
     kinds = ["fail", "error", "skip", "skip_sub", "xfail", "uxsuccess", "assertion_sub", "error_falsy"]
     sites = [("setUp_post", "cleanup"), ("body", "tearDown_post"), ("body", "cleanup"), ("tearDown_post", "cleanup"), ("cleanup", "cleanup2")]
     handler_sets = [[], [{"cls": "SkipTest", "to": "addSkip", "pos": 0}], [{"cls": "SkipTest", "to": "addSuccess", "pos": 0}],
-                    [{"cls": "SkipTest", "to": "addExpectedFailure", "pos": 5}]]
+                    [{"cls": "SkipTest", "to": "addExpectedFailure", "pos": END}]]
     ids = itertools.count(1)
     for k1 in kinds:
         for k2 in kinds:
@@ -410,9 +447,9 @@ def _enum_handlers():
     handler is inserted (cleanups and tearDown included: after the exception was caught) x how the runner was chosen;
     plus two tests of one class with different handler tables."""
     ids = itertools.count(1)
-    pairs = [("customA", "CustomA", "addSkip", 0), ("customA", "TupleAK", "addFailure", 0), ("customA", "VirtualA", "addExpectedFailure", 1),
-             ("error_key", "TupleAK", "addSkip", 0), ("customFail", "AssertionError", "addSkip", 1), ("skip", "SkipTest", "addFailure", 0),
-             ("skip", "SkipTest", "addFailure", 5), ("error", "Exception", "addSkip", 0), ("error", "Exception", "addSkip", 5),
+    pairs = [("customA", "CustomA", "addSkip", 0), ("customA", "TupleAK", "addFailure", 0), ("customA", "VirtualA", "addExpectedFailure", -1),
+             ("error_key", "TupleAK", "addSkip", 0), ("customFail", "AssertionError", "addSkip", -1), ("skip", "SkipTest", "addFailure", 0),
+             ("skip", "SkipTest", "addFailure", END), ("error", "Exception", "addSkip", 0), ("error", "Exception", "addSkip", END),
              ("fail", "CustomFail", "addSkip", 0)]
     for kind, cls, to, pos in pairs:
         for stage in ("setUp_post", "body", "cleanup"):
